@@ -302,8 +302,8 @@ def run(ctx):
 
     ctx.coverage["rule"] = ("stress of every non-deprecated public method of a dialled session, of the accepted session and of the listener, "
                             "from concurrent goroutines with traffic in both directions, new peers arriving, and concurrent Close, per cipher/FEC "
-                            "class %s, %s ms each, plus the targeted pairs GetOOBMaxSize/SetMtu and SetLogger/SetLogger; evaluations = calls made "
-                            "under the race detector; non-trivial = scenarios in which payload bytes were delivered end to end"
+                            "class %s, %s ms each, plus the targeted pairs GetOOBMaxSize/SetMtu and SetLogger/SetLogger; evaluations = public-method "
+                            "calls made under the race detector; non-trivial = those made in a scenario in which payload bytes were delivered end to end"
                             % ((rep or {}).get("extra", {}).get("scenarios"), (rep or {}).get("extra", {}).get("stress_ms_per_config")))
     ctx.level = "proof"
     ctx.assumptions += [
